@@ -227,6 +227,8 @@ def run(ctx):
     # scalars with an illegal escape are rejected, never read as something
     broken_scalars = ['`\\u41`', '`\\u 041`', '`\\u0x41`', '`\\u0_41`', '`\\u+041`', '`a\\u-041`', '`\\uZZZZ`', '`\\q`', '"\\q"', '"\\u 041"', '"\\u0x41"',
                       '"\\u0_41"', '"\\u+041"', '"\\u12"', '"\\uZZZZ"', '@r "\\u 041"', 'hex("\\u0x41")', '[`\\u 041`]', '{a:"\\u0_41"}',
+                      # a raw TAB inside a literal is not a string / URI character, under either version
+                      '"a\tb"', '"\tbc"', '`http://x/\ty`', '@r "a\tb"', '["a\tb"]', '"ab\t\t\t\\q"',
                       # a nested grid that declares a pre-3.0 version cannot hold 3.0-only values
                       '<<ver:"2.0"\nb\n[1]\n>>', '<<ver:"2.0"\nb\nNA\n>>', '[<<ver:"2"\nb\n{x:1}\n>>]', '{g:<<ver:"2.0.0"\nb\nhex("00")\n>>}',
                       '<<ver:"2.0" m:[1]\nb\nT\n>>', '<<ver:"2.0"\nb\n<<ver:"3.0"\nc\n1\n>>\n>>']
